@@ -368,7 +368,7 @@ func (r *Run) Finish() {
 		"coverage": cov, "assumptions": r.assumptions, "wall_s": wall,
 		"violations": len(r.violations),
 	}
-	if doc["assumptions"] == nil {
+	if len(r.assumptions) == 0 {
 		doc["assumptions"] = []string{}
 	}
 	b, err := json.MarshalIndent(doc, "", " ")
